@@ -793,6 +793,8 @@ fn main() {
         "x.tvfs.load_from_blte.multi-none", "x.tvfs.views", "x.bpsv.writer", "x.product_config.build_compact", "x.espec.free_parse+validate", "x.build_config.typed_views.valid_config", "x.cdn_config.typed_views",
         "x.patch_archive.views", "x.patch_index.views", "x.zbsdiff.views", "fixtures.tvfs_blte.compared_with_plain_manifest", "builder_programs.RootFile", "builder_programs.PatchIndex", "builder_programs.ArchiveIndex",
         "builder_values.BuildConfig", "builder_values.CdnConfig", "builder_values.PatchConfig", "builder_values.KeyringConfig", "builder_values.BpsvDocument", "builder_values.ESpec",
+        "builder_programs.EncodingFile", "builder_programs.EncodingFile.ckey_page.full-to-the-last-byte", "builder_programs.EncodingFile.ekey_page.full-to-the-last-byte", "builder_programs.TvfsFile",
+        "builder_programs.TvfsFile.component.2-fragment", "builder_programs.TvfsFile.component.3-fragment", "builder_programs.TvfsFile.component.character-across-a-fragment-boundary",
     ] {
         if ctx.get_obs(k) == 0 {
             ctx.inconclusive(&format!("extension sub-check never ran: {k}"));
